@@ -403,6 +403,7 @@ func checkC08(r *core.Run) {
 			}
 		}
 		pureOfRuntimeState(r, "C08.pure", "the encoding", append(keep, reachFrom(r.W, keep, core.Module+"/pkg/compressor", core.Module+"/pkg/datasource/sql/undo/parser", core.Module+"/pkg/datasource/sql/types")...), nil)
+		noPooledResult(r, "C08.pure", keep)
 		r.Floor("C08.pure", 15)
 	}
 	r.Floor("C08.codes", 28)
